@@ -212,17 +212,21 @@ func verifC11Request(ep int, prof, data string, ch *chan e.Event) (evs []e.Event
 // and carries a prefix of the stage order - whether the requests keep their channel in one and the
 // same variable (re-made per request) or each in its own, and whatever happened to earlier requests.
 func VerifC11Reuse() {
-	prof := verifProfiles[v.Choice("profile", 2)]
+	requests, profiles, entries := 2, 2, 3
+	if v.Deep() {
+		requests, profiles, entries = 3, 1, 2 // thorough tier: one more request; one profile, text or text-with-configuration entry
+	}
+	prof := verifProfiles[v.Choice("profile", profiles)]
 	var shared, own1, own2, own3 chan e.Event
 	sameVariable := v.Bool("sameVariable")
 	slots := []*chan e.Event{&own1, &own2, &own3}
-	for k := 0; k < 2; k++ {
+	for k := 0; k < requests; k++ {
 		slot := slots[k]
 		if sameVariable {
 			slot = &shared
 		}
 		v.Scope([]string{"r1", "r2", "r3"}[k])
-		evs, closed, _ := verifC11Request(v.Choice("entry", 3), prof, "<<data>>", slot)
+		evs, closed, _ := verifC11Request(v.Choice("entry", entries), prof, "<<data>>", slot)
 		v.Assert("C11.closed-on-return", closed)
 		v.Assert("C11.prefix-of-stage-order.length", len(evs) <= len(verifStageOrder))
 		for i, ev := range evs {
@@ -241,7 +245,11 @@ func VerifC11ReuseNative() {
 	var shared, own1, own2, own3 chan e.Event
 	sameVariable := v.ReplayBool("sameVariable")
 	slots := []*chan e.Event{&own1, &own2, &own3}
-	for k := 0; k < 2; k++ {
+	requests := 2
+	if v.Deep() {
+		requests = 3
+	}
+	for k := 0; k < requests; k++ {
 		slot := slots[k]
 		if sameVariable {
 			slot = &shared
